@@ -28,6 +28,11 @@ def _window_max(cont):
 
 
 def check_returned(case):
+    with oracle.scale_floor(case["dissim"]["delta"]):
+        return _check_returned(case)
+
+
+def _check_returned(case):
     cont, spec, mode = case["continuum"], case["dissim"], case["mode"]
     per = oracle.per_annotator(cont)
     c = oracle.build_continuum(cont)
@@ -58,6 +63,11 @@ def check_returned(case):
 
 
 def check_handbuilt(case):
+    with oracle.scale_floor(case["dissim"]["delta"]):
+        return _check_handbuilt(case)
+
+
+def _check_handbuilt(case):
     pa = import_library()
     from pyannote.core import Segment
     cont, spec = case["continuum"], case["dissim"]
@@ -147,7 +157,7 @@ def check_handbuilt(case):
 
 @st.composite
 def returned_cases(draw):
-    cs = draw(gen.continuum_and_spec(min_ann=2, max_ann=5, budget=2500, max_per=10, unlabelled_ratio=0.1))
+    cs = draw(gen.continuum_and_spec(min_ann=2, max_ann=5, budget=2500, max_per=10, unlabelled_ratio=0.1, extreme=True))
     cs["mode"] = draw(st.sampled_from(["best", "fast", "soft", "fast"]))
     cs["window"] = draw(st.integers(0, 50))
     return cs
@@ -155,7 +165,7 @@ def returned_cases(draw):
 
 @st.composite
 def handbuilt_cases(draw):
-    cs = draw(gen.continuum_and_spec(min_ann=2, max_ann=5, budget=10 ** 9, max_per=6, unlabelled_ratio=0.1))
+    cs = draw(gen.continuum_and_spec(min_ann=2, max_ann=5, budget=10 ** 9, max_per=6, unlabelled_ratio=0.1, extreme=True))
     n = len(cs["continuum"]["annotators"])
     slot = st.one_of(st.none(), st.integers(0, 30), st.integers(0, 30))
     cs["groups"] = draw(st.lists(st.lists(slot, min_size=n, max_size=n), min_size=1, max_size=8))
